@@ -38,7 +38,7 @@ def build(ck):
                    'semantics for out-of-range axes is not part of the property)')
     ck.assume_note('C13: leaves passed to ravel/reshape have no zero-sized dimension where a -1 is inferred '
                    '(numpy refuses to infer -1 next to a zero dimension)')
-    ck.trust('lemma:Pprod-fold (split/single/empty/congruence/positivity of the product of a slice; induction)',
+    ck.trust('proved:Pprod-fold lemmas (obligations lemma-base/lemma-step of this check; only the induction principle is meta-level)',
              'lemma:LA6 reshape/ravel/moveaxis are permutations of the flattened elements')
 
     # ------------------------------------------------------------------ RavelOperator.__init__
@@ -421,3 +421,5 @@ def build(ck):          # noqa: F811
     _build1(ck)
     build2(ck, theory())
     build3(ck, theory())
+    from props import lemmas
+    lemmas.prod_lemmas(ck)       # the Pprod fold lemmas instantiated by theories/structs.py are proved here by induction
